@@ -183,10 +183,22 @@ func (r *srState) srServer() (*bkState, *recHook, error) {
 
 func (r *srState) closeServer() {
 	if r.b != nil && !r.closed {
-		for _, c := range r.b.conns { // the client ends keep reading until the server closes them
-			_ = c
+		// Server.Close disconnects the clients of listener "t" and waits for their handlers. A client that the
+		// live broker lost from its session table (F20k) is not disconnected; its handler would only end with
+		// its keepalive, so after 2 s the client ends are closed to let Close return.
+		done := make(chan struct{})
+		go func() {
+			r.b.s.Close()
+			close(done)
+		}()
+		select {
+		case <-done:
+		case <-time.After(2 * time.Second):
+			for _, c := range r.b.conns {
+				c.c.Close()
+			}
+			<-done
 		}
-		r.b.s.Close()
 		for _, c := range r.b.conns {
 			c.c.Close()
 		}
